@@ -346,6 +346,36 @@ impl TryInto<Vec<Term>> for ClosureResult {
     }
 }
 
+/// Verification hooks (only compiled with `--cfg adf_obdd_verif`): read-only views for the external checker.
+#[cfg(adf_obdd_verif)]
+impl NoGood {
+    /// The active positions and the positions with value true.
+    pub fn verif_bits(&self) -> (Vec<u32>, Vec<u32>) {
+        (self.active.iter().collect(), self.value.iter().collect())
+    }
+}
+
+#[cfg(adf_obdd_verif)]
+impl NoGoodStore {
+    /// Public wrapper of the crate-private conclusion closure:
+    /// `Some(Some(v))` = Update(v), `Some(None)` = NoUpdate, `None` = Inconsistent.
+    pub fn verif_conclusion_closure(&self, interpretation: &[Term]) -> Option<Option<Vec<Term>>> {
+        match self.conclusion_closure(interpretation) {
+            ClosureResult::Update(v) => Some(Some(v)),
+            ClosureResult::NoUpdate => Some(None),
+            ClosureResult::Inconsistent => None,
+        }
+    }
+
+    /// The stored nogoods, bucket by bucket.
+    pub fn verif_dump(&self) -> Vec<Vec<(Vec<u32>, Vec<u32>)>> {
+        self.store
+            .iter()
+            .map(|b| b.iter().map(|ng| ng.verif_bits()).collect())
+            .collect()
+    }
+}
+
 #[cfg(test)]
 mod test {
     use super::*;
